@@ -38,6 +38,10 @@ var c19Programs = []string{
 	`it := [a]._iter; it.next; it.next`,
 	`it := (1:2)._iter; it.next; it.next.try.err`,
 	`[a, 2].withI.A; it := "s"._iter; it.next; it.next`,
+	`Either['A]`,
+	`Obj.callProp(Either, 'val)`,
+	`Either.at(['fmap])`,
+	`[Either]@{|e| e['err]}`,
 }
 
 // run evaluates src in a FRESH scope of the shared world and returns (Inspect, stack trace).
@@ -75,7 +79,7 @@ func H_C19_frame() {
 	hi := rt.Param(0)
 	bi := rt.Choice(len(c19Programs)) // the later program: a solver choice among the family
 	if rt.Param(1) >= 0 {
-		rt.Assume(bi == rt.Param(1) || bi == hi || bi == 3 || bi == 4 || bi == 14 || bi == 16)
+		rt.Assume(bi == rt.Param(1) || bi == hi || bi == 3 || bi == 4 || bi == 14 || bi == 16 || bi == 17)
 	}
 	a := int64(7) // results are compared by their printed form, so the input is concrete
 	world := c19WorldSnap()
